@@ -108,6 +108,18 @@ Match(out, k, r, post) ==
     /\ CmpPrompt => post.prompt = out.st.prompt
     /\ CmpCalls => AbsCalls(r.calls) = out.calls
 
+(* C14: a call during which the sink failed.  The line is as it was, as the *)
+(* key would have left it, or cleared; history, prompt and the handler call  *)
+(* are on either side of the call; nothing else.                             *)
+FailMatch(out, r, pre, post) ==
+    /\ \/ (post.line = pre.line /\ post.cur = pre.cur)
+       \/ (post.line = out.st.line /\ post.cur = out.st.cur)
+       \/ (post.line = <<>> /\ post.cur = 0)
+    /\ \/ (post.hist = pre.hist /\ post.nav = pre.nav)
+       \/ (post.hist = out.st.hist /\ post.nav = out.st.nav)
+    /\ post.prompt \in {pre.prompt, out.st.prompt}
+    /\ AbsCalls(r.calls) \in {<<>>, out.calls}
+
 -----------------------------------------------------------------------------
 (* checks on the output of one call *)
 
@@ -165,6 +177,10 @@ ByteRec(r, pre, post) ==
             Chk(<<"key effect: state / handler calls are not an admissible outcome of the key",
                   Focus, key, pre, post, r.calls>>,
                 \E out \in KeyStep(cfg, pre, key, hs) : Match(out, key.k, r, post))
+      /\ (ChkRes /\ r.res = "err") =>
+            Chk(<<"C14 state after a failed call is not the old line, the new line or an empty line",
+                  key, pre, post, r.calls>>,
+                \E out \in KeyStep(cfg, pre, key, hs) : FailMatch(out, r, pre, post))
       /\ (ChkFresh /\ key.k = "enter" /\ r.res = "ok") =>
             Chk(<<"C01 after Enter: empty line and one fresh prompt", post, t2.rows, t2.row, t2.col>>,
                 /\ post.line = <<>> /\ post.cur = 0
@@ -192,6 +208,9 @@ WriteRec(r, pre, post) ==
     /\ r.res = "ok" =>
           Chk(<<"write: state changed", pre, post>>,
               \E out \in ApiWrite(cfg, pre, chunks) : Match(out, "write", r, post))
+    /\ (ChkRes /\ r.res = "err") =>
+          Chk(<<"C14 state after a failed write", pre, post>>,
+              \E out \in ApiWrite(cfg, pre, chunks) : FailMatch(out, r, pre, post))
     /\ (ChkFrame /\ r.res = "ok") =>
           /\ Chk(<<"C13 written bytes are not the text with LF -> CR LF", HandlerBytes(r.ops), text>>,
                  HandlerBytes(r.ops) = Conv(text))
@@ -209,6 +228,9 @@ PromptRec(r, pre, post) ==
     /\ r.res = "ok" =>
           Chk(<<"set_prompt: state", pre, post>>,
               \E out \in ApiSetPrompt(cfg, pre, Decode(r.p)) : Match(out, "prompt", r, post))
+    /\ (ChkRes /\ r.res = "err") =>
+          Chk(<<"C14 state after a failed set_prompt", pre, post>>,
+              \E out \in ApiSetPrompt(cfg, pre, Decode(r.p)) : FailMatch(out, r, pre, post))
     /\ Common(r, post, t2)
 
 RecStep(r) ==
